@@ -89,7 +89,7 @@ fn diff_layer(g: &CLayer, w: &CLayer, header: bool) -> Option<(String, serde_jso
 fn roundtrip(cx: &CaseCtx, rep: &mut Report, rng: &mut Rng) {
 	cx.progress("round trip");
 	for _ in 0..(if cx.tier.is_tiny() { 3 } else { 40 }) {
-		let enc = imvt::EncOpts { dup_keys: rng.chance(0.5), dup_vals: rng.chance(0.5), unused_entries: rng.chance(0.4), foreign_field_order: rng.chance(0.5) };
+		let enc = imvt::EncOpts { dup_keys: rng.chance(0.5), dup_vals: rng.chance(0.5), unused_entries: rng.chance(0.4), foreign_field_order: rng.chance(0.5), split_packed: rng.chance(0.25) };
 		let go = imvt::GenOpts { extreme_values: rng.chance(0.6), wide_tables: if cx.tier.is_tiny() { 0.0 } else { 0.02 }, ..Default::default() };
 		let layers = imvt::gen_layers(rng, &go);
 		let bytes = imvt::encode_tile(&layers, &enc, rng);
@@ -230,7 +230,7 @@ fn model_update(src: &CTile, a: &UpdateArgs, csv: &CsvSpec, st: &mut Stats) -> C
 
 fn update(cx: &CaseCtx, rep: &mut Report, rng: &mut Rng) {
 	let dir = cx.fresh_dir("c11");
-	let enc = imvt::EncOpts { dup_keys: rng.chance(0.3), dup_vals: rng.chance(0.3), unused_entries: rng.chance(0.3), foreign_field_order: rng.chance(0.5) };
+	let enc = imvt::EncOpts { dup_keys: rng.chance(0.3), dup_vals: rng.chance(0.3), unused_entries: rng.chance(0.3), foreign_field_order: rng.chance(0.5), split_packed: rng.chance(0.25) };
 	let go = imvt::GenOpts { extreme_values: rng.chance(0.3), id_field: Some("osm_id".into()), max_features: 7, wide_tables: if cx.tier.is_tiny() { 0.0 } else { 0.02 }, ..Default::default() };
 	let mut sets = gen_vector_sets(rng, 1, &go, false, &enc);
 	if cx.tier.is_tiny() {
